@@ -41,7 +41,7 @@ THEOREMS = [
     "c06_stall_irrelevant",
 ]
 # not stated by the property text: Props/C06Supp.lean (reported as INFO, never a verdict)
-SUPP_THEOREMS = ["c06_exit_translated", "c06_exit_only_cancel_scope_swallowed", "c06_exit_serialisation_error_propagates", "c06_exit_group", "c06_guard_ctor", "c06_guard_streams", "c06_guard_transport"]
+SUPP_THEOREMS = ["c06_exit_translated", "c06_exit_only_cancel_scope_swallowed", "c06_exit_other_class_propagates", "c06_exit_serialisation_error_propagates", "c06_exit_group", "c06_guard_ctor", "c06_guard_streams", "c06_guard_transport"]
 RULE = (
     "sequences of 0..8 outbound items of the three accepted shapes (typed request / notification / response / error / "
     "legacy message, plain dict, pre-serialised single-line string) with params/results over nested JSON values whose "
@@ -802,6 +802,11 @@ class Guards(Suite):
         return f"guards/{case['guard']}/{o.get('guard')}"
 
 
+EXIT_RT_SUB = ["RecursionError", "NotImplementedError", "HostRuntimeError"]
+EXIT_OTHER = ["ValueError", "TypeError", "OSError", "ServerError", "LookupError", "AssertionError"]
+EXIT_CLASSES = ["RuntimeError", "Exception"] + EXIT_RT_SUB + EXIT_OTHER
+
+
 class Exit(Suite):
     """Supplementary (not named by the property text): which exception raised inside
     `async with stdio_client(...)` / `stdio_client_with_initialize(...)` gets out - the regenerated
@@ -818,20 +823,25 @@ class Exit(Suite):
         for entry in ("client", "init"):
             out.append({"entry": entry, "exc": {"kind": "cancelled"}})
             for t in EXIT_TEXTS:
-                out.append({"entry": entry, "exc": {"kind": "error", "cls": rng.choice(["Exception", "RuntimeError", "ValueError", "TypeError", "OSError"]), "msg": t}})
-                out.append({"entry": entry, "exc": {"kind": "group", "members": [{"msg": t}]}})
+                # every text as a RuntimeError (what anyio raises), as a subclass of it, and as other classes (a caller's / a server's error)
+                for cls in ["RuntimeError", rng.choice(EXIT_RT_SUB), "Exception", rng.choice(EXIT_OTHER)]:
+                    out.append({"entry": entry, "exc": {"kind": "error", "cls": cls, "msg": t}})
+                    out.append({"entry": entry, "exc": {"kind": "group", "members": [{"cls": cls, "msg": t}]}})
             out.append({"entry": entry, "exc": {"kind": "group", "members": [{"cancelled": True}]}})
             out.append({"entry": entry, "exc": {"kind": "group", "members": []}} if False else
                        {"entry": entry, "exc": {"kind": "group", "members": [{"cancelled": True}, {"cancelled": True}]}})
             for _ in range(40 if budget == "quick" else 600):
-                ms = [({"cancelled": True} if rng.random() < 0.25 else {"msg": rng.choice(EXIT_TEXTS)}) for _ in range(rng.randrange(1, 5))]
+                ms = [({"cancelled": True} if rng.random() < 0.25 else {"cls": rng.choice(EXIT_CLASSES), "msg": rng.choice(EXIT_TEXTS)})
+                      for _ in range(rng.randrange(1, 5))]
                 out.append({"entry": entry, "exc": {"kind": "group", "members": ms}})
         for v in ("2025-06-18", "2024-11-05"):
             out.append({"entry": "init", "version": v, "exc": {"kind": "error", "msg": "boom"}})
             # non-default handshake options crossed with the error paths
             for init in ({"preferred_version": v}, {"supported_versions": [v]}, {"supported_versions": [v, "2025-03-26"], "preferred_version": v, "timeout": 0.5}):
                 for t in ("boom", "cancel scope", "json object must be str"):
-                    out.append({"entry": "init", "version": v, "server": {"init": init, "env": {"LOG_LEVEL": "CRITICAL"}}, "exc": {"kind": "error", "msg": t}})
+                    for cls in ("RuntimeError", "ServerError"):
+                        out.append({"entry": "init", "version": v, "server": {"init": init, "env": {"LOG_LEVEL": "CRITICAL"}},
+                                    "exc": {"kind": "error", "cls": cls, "msg": t}})
         for i, c in enumerate(out):
             if i % 3 == 0:
                 c["debug"] = "format" if i % 2 else True
@@ -847,6 +857,15 @@ class Exit(Suite):
         if e["kind"] != "cancelled" and not all(ord(c) < 128 for m in ([e] if e["kind"] == "error" else e["members"])
                                                 for c in m.get("msg", "")):
             return None  # str.lower() of non-ASCII text is outside the model (ASCII lower-casing)
+        from .. import stdio_h
+
+        def with_mro(m):  # the class names of the exception's MRO: what every `isinstance(exc, <Class>)` guard can ask
+            return m if m.get("cancelled") else dict(m, mro=[c.__name__ for c in stdio_h.exit_class(m.get("cls", "Exception")).__mro__])
+
+        if e["kind"] == "error":
+            e = with_mro(e)
+        elif e["kind"] == "group":
+            e = dict(e, members=[with_mro(m) for m in e["members"]])
         return {"m": "stdio_exit", "entry": case["entry"], "exc": e}
 
     def compare(self, case, o, m):
@@ -860,7 +879,9 @@ class Exit(Suite):
         return None  # supplementary: the property text says nothing about which exceptions leave the context manager
 
     def kind(self, case, o):
-        return f"exit/{case['entry']}/{case['exc']['kind']}/" + ("propagated" if o.get("propagated") else "swallowed")
+        cls = case["exc"].get("cls", "")
+        fam = "/RuntimeError" if cls in ["RuntimeError"] + EXIT_RT_SUB else "/other-class" if cls else ""
+        return f"exit/{case['entry']}/{case['exc']['kind']}{fam}/" + ("propagated" if o.get("propagated") else "swallowed")
 
 
 def suites():
